@@ -368,13 +368,32 @@ partial def handleIO (op : String) (args : List String) (impl : Option (List Str
         PredHdr.c06_ok Sha.zckHash f opened && PredHdr.c07_ok Sha.zckHash f t d n typeFirst opened
       return (stageStr st, pv)
     | _, _, _ => return ("BADOP", none)
-  | "OPENLATE", [path, n] =>     -- the length pin announced after the lead was read: no effect on the outcome
+  | "OPENLATE", [path, n] => handleIO "OPENLATE" [path, n, "-", "-", "a"] impl
+  | "OPENLATE", [path, n, t, d, whenT] =>     -- expected values announced after the lead was read: no effect on the outcome
     let f ← readFile path
-    let st := Pin.openSeq Sha.zckHash f none none none true false
-    let neg := match n.toInt? with | some v => decide (v < 0) | none => false
-    let st := if st != .lead && neg then Pin.Stage.optLen else st
-    let pv := impl.map fun i => PredHdr.c06_ok Sha.zckHash f (i == ["OK"])
-    return (stageStr st, pv)
+    match optInt t, (if d == "-" then some none else (parseHex d).map some) with
+    | some t, some d =>
+      let neg := match n.toInt? with | some v => decide (v < 0) | none => false
+      let st : Pin.Stage :=
+        match (if whenT == "b" then (match t with | some t => Pin.setType {} t | none => some {}) else some {}) with
+        | none => .optType
+        | some p1 =>
+          match Header.readLead p1 f with
+          | .ok l =>
+            match (if whenT != "b" then (match t with | some t => Pin.setType p1 t | none => some p1) else some p1) with
+            | none => .optType
+            | some p2 =>
+              match (match d with | some d => Pin.setDigest p2 d | none => some p2) with
+              | none => .optDigest
+              | some _ =>
+                if neg then .optLen else
+                match Header.readHeader Sha.zckHash f l with
+                | .ok _ => .done
+                | _ => .header
+          | _ => .lead
+      let pv := impl.map fun i => PredHdr.c06_ok Sha.zckHash f (i == ["OK"])
+      return (stageStr st, pv)
+    | _, _ => return ("BADOP", none)
   | "OPENM", [path, pos, v] =>
     let f ← readFile path
     match pos.toNat?, parseHex v with
@@ -554,19 +573,29 @@ partial def handleIO (op : String) (args : List String) (impl : Option (List Str
           let spec : Encode.Spec := ⟨h.hashType, h.chunkHashType, h.flags, h.compType, h.dataDigest, h.chunks⟩
           pure (Encode.header Sha.zckHash spec == some (f.take (h.lead + h.headerLen)) && f.length == h.lead + h.headerLen + h.dataLen)
         | none => pure false)
-      -- without compression (and without the uncompressed-source flag) the model gives the file byte for byte: header_create's
-      -- output for the entries of the dictionary and of the chunks the chunker model cuts, followed by the chunks
-      let comparable := closed && get "comp" == some "none" && natOf "uncomp" == 0
+      -- the model gives the file byte for byte (`Encode.closeFile`): header_create's output for the entries of the dictionary and of
+      -- the chunks the chunker model cuts, followed by their stored forms.  The compressor is a parameter of the model: for zstd
+      -- files it is the table content -> stored bytes read off the implementation's own output (position by position)
+      let comparable := closed
       let fileOk ← (do
         if !comparable then pure true else
         match Writer.closeChunks wcfg mops, (match get "dict" with | some d => if d == "-" then some [] else parseHex d | none => some []) with
         | some chunks, some dict =>
           let ht := ((get "full").bind (·.toNat?)).getD 1
           let cht := ((get "chunk").bind (·.toNat?)).getD 3
-          match Encode.closeFileNone Sha.zckHash ht cht dict chunks with
-          | some mf =>
-            let f ← readFile outPath
-            pure (mf == f)
+          let ct := if get "comp" == some "none" then 0 else 2
+          let u := natOf "uncomp" == 1
+          let f ← readFile outPath
+          let table : List ((Bool × Bytes) × Bytes) := match Format.parse Sha.zckHash f with
+            | some h =>
+              let data := f.drop (h.lead + h.headerLen)
+              let pls := dict :: chunks
+              if h.chunks.length != pls.length then [] else
+              (h.chunks.zip pls).zipIdx.map fun ((c, pl), i) => ((i != 0 && !dict.isEmpty, pl), (data.drop c.start).take c.compLen)
+            | none => []
+          let C := fun (d : Option Bytes) (pl : Bytes) => ((table.find? fun e => e.1 == (d.isSome, pl)).map (·.2)).getD []
+          match Encode.closeFile Sha.zckHash C ht cht ct u dict chunks with
+          | some mf => pure (mf == f)
           | none => pure false
         | _, _ => pure true)
       let out := match Writer.closeChunks wcfg mops with
